@@ -58,6 +58,26 @@ func (t c05Tree) render() map[string]string {
 	return files
 }
 
+// nameReuse tells whether some service name is defined in two files of the tree.  The recorded defect of the cycle
+// tracker (it keys on the *extending service's name* and the *referenced* file) needs such a name; failure keys carry
+// this bit so that a false "Circular reference" on a chain with distinct names is never mistaken for the known one.
+func (t c05Tree) nameReuse() string {
+	seen := map[string]int{}
+	for _, tr := range t.Trees {
+		doc, _ := core.DecodeVal(tr).(map[string]any)
+		svcs, _ := doc["services"].(map[string]any)
+		for n := range svcs {
+			seen[n]++
+		}
+	}
+	for _, c := range seen {
+		if c > 1 {
+			return "name-reuse"
+		}
+	}
+	return "distinct-names"
+}
+
 var c05ErrClasses = []struct {
 	re  *regexp.Regexp
 	cls string
@@ -430,7 +450,9 @@ func judgeC05Order(args, real, drv json.RawMessage) *core.Verdict {
 	if oks > 1 {
 		return core.Fail("order-dependent:result", fmt.Sprintf("visit orders %v and %v give different resolved services", r.Distinct[0].Order, r.Distinct[1].Order))
 	}
-	return core.Fail("order-dependent:"+strings.Join(cl, "|"), fmt.Sprintf("the outcome of ApplyExtends depends on the visit order of the services map: %v → %s, %v → %s",
+	var a c05ApplyArgs
+	json.Unmarshal(args, &a)
+	return core.Fail("order-dependent:"+strings.Join(cl, "|")+":"+a.nameReuse(), fmt.Sprintf("the outcome of ApplyExtends depends on the visit order of the services map: %v → %s, %v → %s",
 		r.Distinct[0].Order, outcomeClass(r.Distinct[0].Out), r.Distinct[1].Order, outcomeClass(r.Distinct[1].Out)))
 }
 
